@@ -142,3 +142,39 @@ def ast_stats(ast):
         'has_lower_quota': 1 if any(p[0] > 0 for p in ast['projects']) or any(l[0] > 0 for l in ast['lecturers']) else 0,
         'shared_lecturer': 1 if ast['na'] == 3 and len(set(p[2] for p in ast['projects'])) < len(ast['projects']) else 0,
     }
+
+
+def gen_tradeoff(rng, k=None, na=None):
+    """'Augmenting chain' instances on which size, greediness, cost and generosity pull in different directions:
+    student i prefers project p(i+1) to p(i); the last student only lists the last project; unit capacities.
+    Students and projects are randomly relabelled, a random extra entry or tie may be added."""
+    k = k or rng.randint(2, 4)
+    na = na or rng.choice([2, 3])
+    sperm = list(range(1, k + 1))
+    pperm = list(range(1, k + 1))
+    rng.shuffle(sperm)
+    rng.shuffle(pperm)
+    first = [None] * k
+    for i in range(1, k + 1):
+        if i < k:
+            lst = [[pperm[i]], [pperm[i - 1]]]
+        else:
+            lst = [[pperm[k - 1]]]
+        if rng.random() < 0.2 and len(lst) == 2:
+            lst = [[lst[0][0], lst[1][0]]]            # tie the two
+        first[sperm[i - 1] - 1] = lst
+    L = k if na == 2 else rng.randint(1, k)
+    proj_lec = list(range(1, k + 1)) if na == 2 else [rng.randint(1, L) for _ in range(k)]
+    projects = [[0, 1, proj_lec[j]] for j in range(k)]
+    lecturers = []
+    for l in range(1, L + 1):
+        if na == 2:
+            lq, tg, uq = 0, 1, 1
+        else:
+            uq = max(1, sum(1 for c in proj_lec if c == l))
+            tg = rng.randint(0, uq)
+            lq = 0
+        studs = [s for s in range(1, k + 1) if any(proj_lec[p - 1] == l for g in first[s - 1] for p in g)]
+        rng.shuffle(studs)
+        lecturers.append([lq, tg, uq, tie_groups(rng, studs, rng.choice([0.0, 0.4]))])
+    return dict(na=na, n1=k, n2=k, n3=L, first=first, projects=projects, lecturers=lecturers)
